@@ -17,7 +17,9 @@ import tempfile
 from harness import core, docs, engine
 
 LITERALS = ['"q"', '"x', 'a,b', 'x y', ' lead', 'trail ', 'ça', 'niño', 'Über', '日本', "it's", 'a"b"c', '""', ',', '" "', 'a\\tb', '@', 'a@b',
-            'a·b', '%', '#']
+            'a·b', '%', '#',
+            # text that Unicode normalisation would rewrite: decomposed accents, singleton code points, compatibility forms
+            'cafe\u0301', 'A\u030angstro\u0308m', '\u212b', '\u2126', 'a\u2002b', '\ufb01n', '\u1e9b\u0323', 'e\u0301\u0301']
 
 
 def layouts(depth, width):
